@@ -374,6 +374,11 @@ fn random(a: &Args) {
                     let mut sib: Vec<(u32, u32)> = (0..nd as u32).filter(|&x| x != dy).map(|x| (ty, x)).collect();
                     sib.extend((1..=nt as u32).filter(|&t| t != ty).map(|t| (t, dy)));
                     sib.shuffle(&mut rng);
+                    // every sibling's presence is asked for (a removal must not touch what a presence query says
+                    // about ANY other slot), two of them are fetched as well
+                    for &(t, x) in &sib {
+                        follow.push_back(CallSpec { op: "has_value_raw".into(), targ: t, ty: t, dy: x, ..Default::default() });
+                    }
                     for (t, x) in sib.into_iter().take(2) {
                         let op = *["try_fetch_by_id", "try_fetch_mut_by_id", "has_value_raw"].choose(&mut rng).unwrap();
                         follow.push_back(CallSpec { op: op.into(), targ: t, ty: t, dy: x, ..Default::default() });
